@@ -199,4 +199,17 @@ REG.update({
                        "stub": ["ChainContext stub", "headers built with types.EmptyWorkObject"]},
         "assumptions": ["the system-level form (sum over zones + in-flight ETXs + locked rewards) is not decided here", "programs are grammar-sampled"],
     },
+    "C13": {
+        "level": "exploration",
+        "tests": [{"pkg": "./chainsim", "run": "TestC13", "quick": 320, "thorough": 25000, "chunk": 20}],
+        "rule": S5_RULE + ("Additional ops: deploy an owner contract (a forwarder to the lockup precompile; address ground into the zone's Quai ledger), switch the miner's lockup byte 0..3 and lockup contract, claim a lockup through the contract "
+                 "(three times out of four aimed at a stored lockup, sometimes through a contract that does not own it, sometimes for the epoch still accumulating or before the tranche unlocks). Most runs start from prologue 3 (contract deployed, contract-held lockups of two epochs). "
+                 "Oracles after every accepted block: (credit-ledger) a model of contract-held lockups keyed (contract, miner, lockup byte, epoch), fed only by the coinbase ETXs executed in accepted blocks, equals the stored cl records exactly; "
+                 "Qi rewards are minted under the reward ETX's hash, locked until exactly block+depth, for no more than the lockup-adjusted value; the plain-reward account's balance changes at a block by exactly the rewards whose unlock height it is (less the account-creation fee the first time); "
+                 "(claim-once) a claim pays only an existing lockup, of a closed epoch, at or after its tranche unlock height, exactly its accumulated balance, to the stated recipient from the owning contract, and removes it; (share-once) no uncle/workshare is included twice on a chain or is itself canonical."),
+        "expect_probes": ["contract_lockup_reward", "lockup_accumulated", "claim_paid", "claim_refused", "quai_reward_unlocked", "qi_reward_checked", "uncle_included", "reorg"],
+        "components": S5_COMPONENTS,
+        "assumptions": ["the reward amount of a coinbase ETX is taken from the honest block (worker/validator agreement is C07); only the lockup adjustment uses params.CalculateCoinbaseValueWithLockup",
+                        "delegates in coinbase data are not generated", "lockup rewards multiples are inactive below 2*BlocksPerMonth; the regime sets BlocksPerMonth=3 so that lockup bytes 1..3 are used"],
+    },
 })
